@@ -235,7 +235,7 @@ func thoroughExtras(id, repo, verif string, rep *Report, known *KnownFile, extra
 		}
 	}
 	for _, env := range [][]string{{"GOOS=windows", "GOARCH=amd64"}, {"GOOS=linux", "GOARCH=386"}} {
-		r2, err := analyse(id, "thorough", repo, nil, env, false)
+		r2, err := analyse(id, "thorough", repo, rep.overlay, env, false)
 		v := map[string]interface{}{"variant": strings.Join(env, " ")}
 		if err != nil {
 			v["error"] = firstLine(err.Error())
